@@ -3,6 +3,7 @@ package main
 import (
 	"encoding/json"
 	"fmt"
+	"math"
 	"strconv"
 	"strings"
 
@@ -20,6 +21,7 @@ type Tree struct {
 	Rings [][][]int   // Polygon; MultiLineString lines
 	Polys [][][][]int // MultiPolygon
 	Kids  []Tree      // GeometryCollection, FeatureCollection; Feature (one kid)
+	Z     int         // PointZ
 	R     int         // Circle radius (lattice units)
 	Steps int         // Circle steps
 }
@@ -37,6 +39,10 @@ func parseTree(raw json.RawMessage) (Tree, error) {
 	switch t.Kind {
 	case "Point", "SimplePoint":
 		err = json.Unmarshal(parts[1], &t.P)
+	case "PointZ":
+		if err = json.Unmarshal(parts[1], &t.P); err == nil {
+			err = json.Unmarshal(parts[2], &t.Z)
+		}
 	case "Rect":
 		if err = json.Unmarshal(parts[1], &t.Min); err == nil {
 			err = json.Unmarshal(parts[2], &t.Max)
@@ -98,6 +104,8 @@ func (t Tree) JSON() interface{} {
 	switch t.Kind {
 	case "Point", "SimplePoint":
 		return []interface{}{t.Kind, t.P}
+	case "PointZ":
+		return []interface{}{t.Kind, t.P, t.Z}
 	case "Rect":
 		return []interface{}{t.Kind, t.Min, t.Max}
 	case "LineString", "MultiPoint":
@@ -141,6 +149,8 @@ func (t Tree) Build(mp Map, opts *geometry.IndexOptions) geojson.Object {
 		return geojson.NewPoint(mp.P(t.P[0], t.P[1]))
 	case "SimplePoint":
 		return geojson.NewSimplePoint(mp.P(t.P[0], t.P[1]))
+	case "PointZ":
+		return geojson.NewPointZ(mp.P(t.P[0], t.P[1]), mp.P(t.Z, 0).X)
 	case "Rect":
 		return geojson.NewRect(geometry.Rect{Min: mp.P(t.Min[0], t.Min[1]), Max: mp.P(t.Max[0], t.Max[1])})
 	case "LineString":
@@ -173,7 +183,11 @@ func (t Tree) Build(mp Map, opts *geometry.IndexOptions) geojson.Object {
 	case "Feature":
 		return geojson.NewFeature(t.Kids[0].Build(mp, opts), "")
 	case "Circle":
-		return geojson.NewCircle(mp.P(t.P[0], t.P[1]), float64(t.R), t.Steps)
+		r := mp.P(t.R, 0).X
+		if t.R == -999 {
+			r = math.NaN()
+		}
+		return geojson.NewCircle(mp.P(t.P[0], t.P[1]), r, t.Steps)
 	}
 	panic("unknown kind " + t.Kind)
 }
